@@ -15,6 +15,7 @@ from pandas.api.extensions import (
 from pandas.core.dtypes.inference import is_dict_like, is_list_like
 
 from staircase.constants import inf
+from staircase.core.exceptions import ClosedMismatchError
 from staircase.core.arrays import docstrings
 from staircase.core.stairs import Stairs
 from staircase.core.stats.statistic import corr as _corr
@@ -164,11 +165,15 @@ class StairsArray(ExtensionArray):
     @Appender(docstrings.make_docstring("array", "agg"), join="\n", indents=1)
     def agg(self, func):
         with_steps = [sf for sf in self.data if sf.number_of_steps]
+        for sf in with_steps[1:]:
+            if sf.closed != with_steps[0].closed:
+                raise ClosedMismatchError(with_steps[0], sf)
+        closed = with_steps[0].closed if with_steps else self.data[0].closed
         if not with_steps:
             return Stairs._new(
                 initial_value=func([s.initial_value for s in self.data]),
                 data=None,
-                closed=self.data[0].closed,
+                closed=closed,
             )
         index = pd.Index(
             np.unique(
@@ -191,7 +196,7 @@ class StairsArray(ExtensionArray):
                 index=index,
                 name="value",
             ).to_frame(),
-            closed=self.data[0].closed,
+            closed=closed,
         )._remove_redundant_step_points()
 
     @Appender(docstrings.make_docstring("array", "sample"), join="\n", indents=1)
